@@ -13,14 +13,19 @@ anything else than these rewrites:
   N3  tests are put in negation normal form (De Morgan; `not a < b` = `a >= b`, a total order being assumed for `<`-families;
       `not all(p ..)` = `any(not p ..)`), comparisons are oriented to `<`/`<=` (symmetric ones: variable operand first, then by binding order of the names), `x in (a, b)` is spelt `x == a or x == b`,
       `len(x) > 0` as a test is spelt `x`, and-of-and is flattened, `all(map(lambda v: p, xs))` is spelt `all(p for v in xs)`;
-  N4  `if`: a guard clause (`if c: <leaves>` followed by REST) is `if c: <leaves> else: REST` (likewise when the else arm leaves); nested ifs without else are one
+  N4  `if`: what follows an if/elif/else with an arm that leaves belongs to the one arm that stays (guard clauses); a jump directly
+      behind an if ends every arm that stays; `if a: X elif b: X` is `if a or b: X`; `P if c else Q` as a test is `(c and P) or (not c and Q)`; nested ifs without else are one
       conjunction; of `if c: A else: B` and `if not c: B else: A` the one whose test has fewer negations (then the smaller text);
   N5  collector loops: `for t in S: [if c:] L.append(e)` is `L.extend(e for t in S if c)`; `L = []` directly followed by it is
       `L = [e for ...]`; the dict analogue; `for t in S: if c: return True` + `return False` is `return any(c for t in S)` (dual: all);
       `for k, v in d.items()` with k unused is `for v in d.values()`;
   N6  locals bound once are substituted where sa/canon.inline_new_locals allows it (nothing between binding and use can change
       the value; an expression with effects is moved only to a single use with nothing in between);
-  N7  `x = x op e` is `x op= e`; `v = <constant>` for a local v sinks past statements that do not mention v;
+  N6b a second `v = E` under a first one that still holds is dropped; `v = A; if c: v = B` is `v = B if c else A`; `v = E; return f(v)`
+      is `return f(E)`; `True if a else b` is `a or b` for truth-valued a, b (and the three siblings); `d.update({k: v for k, v in e.items()})`
+      is `d.update(e)`;
+  N7  `x = x op e` is `x op= e`; `v = <constant or empty container>` for a local v sinks past statements that do not mention v
+      and into both arms of an if/else;
   N8  bound names (locals, comprehension variables, lambda parameters) are numbered in order of appearance.
 """
 from __future__ import annotations
@@ -216,6 +221,50 @@ def _pure_atom(e: ast.AST) -> bool:
     return True
 
 
+def _all_pure(e: ast.AST) -> bool:
+    if isinstance(e, ast.BoolOp):
+        return all(_all_pure(v) for v in e.values)
+    if isinstance(e, ast.UnaryOp) and isinstance(e.op, ast.Not):
+        return _all_pure(e.operand)
+    if _is_tt(e):
+        return True
+    return _pure_atom(_atom(e)[0])
+
+
+def truth_table(e: ast.AST) -> ast.AST:
+    """Canonical form of the effect-free parts of an and/or combination: the whole of it when every atom is effect-free, otherwise
+    every maximal run of adjacent effect-free operands (operands are never moved across one that may have an effect)."""
+    if not isinstance(e, ast.BoolOp):
+        return e
+    whole = _tt_whole(e)
+    if whole is not e:
+        return whole
+    vals = [truth_table(v) if isinstance(v, ast.BoolOp) else v for v in e.values]
+    out: List[ast.AST] = []
+    run: List[ast.AST] = []
+
+    def flush():
+        if len(run) >= 2:
+            t = _tt_whole(ast.BoolOp(op=e.op, values=list(run)))
+            if _is_tt(t) or not isinstance(t, ast.BoolOp):
+                out.append(t)
+            else:
+                out.extend(run)
+        else:
+            out.extend(run)
+        run.clear()
+    for v in vals:
+        if _all_pure(v):
+            run.append(v)
+        else:
+            flush()
+            out.append(v)
+    flush()
+    if len(out) == 1:
+        return out[0]
+    return ast.BoolOp(op=e.op, values=out)
+
+
 def _atom(e: ast.AST):
     """-> (positive atom expression, negated?)"""
     if isinstance(e, ast.UnaryOp) and isinstance(e.op, ast.Not):
@@ -234,7 +283,7 @@ def _atom(e: ast.AST):
     return e, False
 
 
-def truth_table(e: ast.AST) -> ast.AST:
+def _tt_whole(e: ast.AST) -> ast.AST:
     """An and/or/not combination of at most 5 effect-free atoms -> `_tt('<bits>', atom, ...)` with the atoms sorted by text."""
     if not isinstance(e, ast.BoolOp):
         return e
@@ -252,6 +301,7 @@ def truth_table(e: ast.AST) -> ast.AST:
                     terms.append(ast.BoolOp(op=ast.And(), values=[a if (k >> i) & 1 else _not(a) for i, a in enumerate(ats)]))
             return ast.BoolOp(op=ast.Or(), values=terms) if len(terms) > 1 else (terms[0] if terms else x)
         return x
+    original = e
     e = expand(e)
     leaves: List[ast.AST] = []
 
@@ -268,11 +318,11 @@ def truth_table(e: ast.AST) -> ast.AST:
     for x in leaves:
         a, _n = _atom(x)
         if not _pure_atom(a) or _is_tt(a):
-            return e
+            return original
         atoms.setdefault(_u(a), a)
     names = sorted(atoms)
     if not (2 <= len(names) <= 5):
-        return e
+        return original
 
     def ev(x, env) -> bool:
         if isinstance(x, ast.BoolOp):
@@ -294,7 +344,7 @@ def truth_table(e: ast.AST) -> ast.AST:
             keep.append(i)
     if len(keep) != len(names):
         if not keep:
-            return e
+            return original
         names2 = [names[i] for i in keep]
         bits2 = ""
         for k in range(2 ** len(names2)):
@@ -351,12 +401,32 @@ def _neg_count(e: ast.AST) -> int:
                or (isinstance(n, ast.Compare) and any(isinstance(o, (ast.NotEq, ast.NotIn, ast.IsNot)) for o in n.ops)))
 
 
+def _boolean_valued(e: ast.AST) -> bool:
+    if isinstance(e, ast.Compare):
+        return True
+    if isinstance(e, ast.UnaryOp) and isinstance(e.op, ast.Not):
+        return True
+    if isinstance(e, ast.BoolOp):
+        return all(_boolean_valued(v) for v in e.values)
+    if isinstance(e, ast.Call) and isinstance(e.func, ast.Name) and e.func.id in ("isinstance", "all", "any", "bool", "callable", "hasattr", "_tt"):
+        return True
+    return isinstance(e, ast.Constant) and isinstance(e.value, bool)
+
+
+def _test_ifexp(t: ast.AST) -> ast.AST:
+    """`P if c else Q` used as a test is `(c and P) or (not c and Q)` (same operands evaluated, in the same order)."""
+    if isinstance(t, ast.IfExp):
+        return ast.BoolOp(op=ast.Or(), values=[ast.BoolOp(op=ast.And(), values=[t.test, _test_ifexp(t.body)]),
+                                              ast.BoolOp(op=ast.And(), values=[_not(ast.parse(ast.unparse(t.test), mode="eval").body), _test_ifexp(t.orelse)])])
+    return t
+
+
 class _Tests(ast.NodeTransformer):
     """N3 on every test position and on and/or/not/quantifier expressions elsewhere."""
 
     def visit_If(self, node):
         self.generic_visit(node)
-        node.test = truth_table(nnf(node.test, False, True))
+        node.test = truth_table(nnf(_test_ifexp(node.test), False, True))
         return node
 
     def visit_While(self, node):
@@ -366,6 +436,16 @@ class _Tests(ast.NodeTransformer):
 
     def visit_IfExp(self, node):
         self.generic_visit(node)
+        # True if a else b  =  a or b   (a truth-valued: comparison / not / isinstance / and-or of those), and the three siblings
+        if _boolean_valued(node.test):
+            tb = isinstance(node.body, ast.Constant) and isinstance(node.body.value, bool)
+            to = isinstance(node.orelse, ast.Constant) and isinstance(node.orelse.value, bool)
+            if tb and not to and _boolean_valued(node.orelse):
+                return nnf(ast.BoolOp(op=ast.Or(), values=[node.test, node.orelse]) if node.body.value
+                           else ast.BoolOp(op=ast.And(), values=[_not(node.test), node.orelse]), False, False)
+            if to and not tb and _boolean_valued(node.body):
+                return nnf(ast.BoolOp(op=ast.And(), values=[node.test, node.body]) if not node.orelse.value
+                           else ast.BoolOp(op=ast.Or(), values=[_not(node.test), node.body]), False, False)
         node.test = truth_table(nnf(node.test, False, True))
         t, n = node.test, nnf(node.test, True, True)
         if (_neg_count(n), len(_u(n)), _u(n)) < (_neg_count(t), len(_u(t)), _u(t)):
@@ -399,6 +479,33 @@ class _Tests(ast.NodeTransformer):
         self.generic_visit(node)
         if isinstance(node.func, ast.Name) and node.func.id in ("all", "any"):
             return nnf(node, False, False)
+        # filter(lambda v: c, xs) / map(lambda v: e, xs) consumed by list()/len(list())/set()/sum()/...: the comprehension
+        if isinstance(node.func, ast.Name) and node.func.id in ("list", "set", "tuple", "sum", "sorted", "min", "max", "frozenset") and len(node.args) >= 1 \
+                and isinstance(node.args[0], ast.Call) and isinstance(node.args[0].func, ast.Name) and node.args[0].func.id in ("filter", "map") \
+                and len(node.args[0].args) == 2 and isinstance(node.args[0].args[0], ast.Lambda) and len(node.args[0].args[0].args.args) == 1 \
+                and not node.args[0].args[0].args.defaults:
+            inner = node.args[0]
+            lam = inner.args[0]
+            var = ast.Name(id=lam.args.args[0].arg, ctx=ast.Store())
+            if inner.func.id == "filter":
+                w = nnf(lam.body, False, True)
+                conds = w.values if isinstance(w, ast.BoolOp) and isinstance(w.op, ast.And) else [w]
+                gen = ast.GeneratorExp(elt=ast.Name(id=var.id, ctx=ast.Load()), generators=[ast.comprehension(target=var, iter=inner.args[1], ifs=list(conds), is_async=0)])
+            else:
+                gen = ast.GeneratorExp(elt=lam.body, generators=[ast.comprehension(target=var, iter=inner.args[1], ifs=[], is_async=0)])
+            node.args[0] = gen
+        if isinstance(node.func, ast.Name) and node.func.id == "list" and len(node.args) == 1 and not node.keywords and isinstance(node.args[0], ast.GeneratorExp):
+            return ast.ListComp(elt=node.args[0].elt, generators=node.args[0].generators)
+        if isinstance(node.func, ast.Name) and node.func.id == "set" and len(node.args) == 1 and not node.keywords and isinstance(node.args[0], ast.GeneratorExp):
+            return ast.SetComp(elt=node.args[0].elt, generators=node.args[0].generators)
+        if isinstance(node.func, ast.Attribute) and node.func.attr == "update" and len(node.args) == 1 and isinstance(node.args[0], ast.DictComp):
+            dc = node.args[0]
+            g = dc.generators
+            if len(g) == 1 and not g[0].ifs and isinstance(g[0].target, ast.Tuple) and len(g[0].target.elts) == 2 \
+                    and all(isinstance(e, ast.Name) for e in g[0].target.elts) and isinstance(dc.key, ast.Name) and isinstance(dc.value, ast.Name) \
+                    and dc.key.id == g[0].target.elts[0].id and dc.value.id == g[0].target.elts[1].id \
+                    and isinstance(g[0].iter, ast.Call) and isinstance(g[0].iter.func, ast.Attribute) and g[0].iter.func.attr == "items" and not g[0].iter.args:
+                node.args[0] = g[0].iter.func.value
         # generator / list argument of a reducer: one spelling
         if ((isinstance(node.func, ast.Name) and node.func.id in ("sum", "set", "list", "tuple", "sorted", "min", "max", "frozenset", "quicksum"))
                 or (isinstance(node.func, ast.Attribute) and node.func.attr in ("extend", "update", "join", "quicksum"))) and len(node.args) >= 1 \
@@ -469,6 +576,19 @@ def _neq_orientation(fn) -> bool:
     return changed
 
 
+def _leaf_arms(s: ast.If):
+    """The arms of an if/elif/else chain as (owner If, field) pairs; a missing else is the arm (last If, 'orelse') holding []."""
+    out = []
+    cur = s
+    while True:
+        out.append((cur, "body"))
+        if len(cur.orelse) == 1 and isinstance(cur.orelse[0], ast.If):
+            cur = cur.orelse[0]
+            continue
+        out.append((cur, "orelse"))
+        return out
+
+
 def _ifs(fn) -> bool:
     changed = _neq_orientation(fn)
     for owner, f, b in list(_blocks(fn)):
@@ -476,16 +596,28 @@ def _ifs(fn) -> bool:
         while i < len(b):
             s = b[i]
             if isinstance(s, ast.If):
-                # guard clause -> if/else
-                if not s.orelse and _ends_in_jump(s.body) and i + 1 < len(b):
-                    s.orelse = b[i + 1:]
-                    del b[i + 1:]
-                    changed = True
-                # the else arm leaves: what follows belongs to the first arm
-                if s.orelse and _ends_in_jump(s.orelse) and not _ends_in_jump(s.body) and i + 1 < len(b):
-                    s.body = s.body + b[i + 1:]
-                    del b[i + 1:]
-                    changed = True
+                # what follows an if that has an arm that leaves belongs to the arms that do not leave
+                rest = b[i + 1:]
+                if rest:
+                    arms = _leaf_arms(s)
+                    staying = [(o, fld) for o, fld in arms if not _ends_in_jump(getattr(o, fld))]
+                    leaving = len(arms) - len(staying)
+                    if not staying:
+                        del b[i + 1:]  # unreachable
+                        changed = True
+                    elif leaving and len(staying) == 1:
+                        o, fld = staying[0]
+                        arm = getattr(o, fld)  # mutated in place: other traversals hold this very list
+                        arm[:] = [x for x in arm if not isinstance(x, ast.Pass)] + rest
+                        del b[i + 1:]
+                        changed = True
+                    elif isinstance(rest[0], JUMPS):
+                        # a jump right behind the if: every arm that stays ends with it
+                        for o, fld in staying:
+                            arm = getattr(o, fld)
+                            arm[:] = [x for x in arm if not isinstance(x, ast.Pass)] + [_clone_stmt(rest[0])]
+                        del b[i + 1:]
+                        changed = True
                 # `else` holding nothing
                 if s.orelse and all(isinstance(x, ast.Pass) for x in s.orelse):
                     s.orelse = []
@@ -493,6 +625,13 @@ def _ifs(fn) -> bool:
                 if s.body and all(isinstance(x, ast.Pass) for x in s.body) and s.orelse:
                     s.test, s.body, s.orelse = nnf(s.test, True, True), s.orelse, []
                     changed = True
+                # if T1: X elif T2: X [else: Z]   ->   if T1 or T2: X [else: Z]
+                if len(s.orelse) == 1 and isinstance(s.orelse[0], ast.If) and [_u(x) for x in s.body] == [_u(x) for x in s.orelse[0].body]:
+                    nxt = s.orelse[0]
+                    s.test = nnf(ast.BoolOp(op=ast.Or(), values=[s.test, nxt.test]), False, True)
+                    s.orelse = nxt.orelse
+                    changed = True
+                    continue
                 # if c: (if A: J) else: (if B: J)   ->   if (c and A) or (not c and B): J
                 if len(s.body) == 1 and len(s.orelse) == 1 and isinstance(s.body[0], ast.If) and isinstance(s.orelse[0], ast.If) \
                         and not s.body[0].orelse and not s.orelse[0].orelse and len(s.body[0].body) == 1 and isinstance(s.body[0].body[0], JUMPS) \
@@ -531,6 +670,54 @@ def _ifs(fn) -> bool:
                         changed = True
             i += 1
     return changed
+
+
+def _conditional_overwrite(fn) -> bool:
+    """`v = A` directly followed by `if c: v = B` (no else; c and B do not read v; A free of effects): `v = B if c else A`."""
+    changed = False
+    for owner, f, b in list(_blocks(fn)):
+        i = 0
+        while i + 1 < len(b):
+            s, t = b[i], b[i + 1]
+            if isinstance(s, ast.Assign) and len(s.targets) == 1 and isinstance(s.targets[0], ast.Name) and isinstance(t, ast.If) and not t.orelse \
+                    and len(t.body) == 1 and isinstance(t.body[0], ast.Assign) and len(t.body[0].targets) == 1 \
+                    and isinstance(t.body[0].targets[0], ast.Name) and t.body[0].targets[0].id == s.targets[0].id:
+                v = s.targets[0].id
+                reads_v = any(isinstance(n, ast.Name) and n.id == v for n in list(ast.walk(t.test)) + list(ast.walk(t.body[0].value)))
+                if not reads_v and not canon.roots_attrs(s.value)[2] and (_all_pure(t.test) or not canon.roots_attrs(t.test)[2]):
+                    s.value = _ifexp(t.test, t.body[0].value, s.value)
+                    b.pop(i + 1)
+                    changed = True
+                    continue
+            i += 1
+    return changed
+
+
+def _inline_before_return(fn) -> bool:
+    """`v = E` directly followed by `return <expression reading the local v once>`: `return` with E in place (whatever other bindings v has)."""
+    changed = False
+    for owner, f, b in list(_blocks(fn)):
+        i = 0
+        while i + 1 < len(b):
+            s, r = b[i], b[i + 1]
+            if isinstance(s, ast.Assign) and len(s.targets) == 1 and isinstance(s.targets[0], ast.Name) and isinstance(r, ast.Return) and r.value is not None:
+                v = s.targets[0].id
+                uses = [n for n in ast.walk(r.value) if isinstance(n, ast.Name) and n.id == v]
+                first = next((n for n in canon.walk_order(r.value) if isinstance(n, (ast.Name, ast.Call, ast.Attribute, ast.Subscript))), None)
+                if len(uses) == 1 and (uses[0] is r.value or uses[0] is first) and not any(isinstance(n, (ast.Lambda, ast.GeneratorExp, ast.ListComp)) for n in ast.walk(r.value)):
+                    if uses[0] is r.value:
+                        r.value = s.value
+                    else:
+                        canon._replace(r, uses[0], s.value)
+                    b.pop(i)
+                    changed = True
+                    continue
+            i += 1
+    return changed
+
+
+def _clone_stmt(x: ast.stmt) -> ast.stmt:
+    return ast.parse(ast.unparse(x)).body[0]
 
 
 # ---------------------------------------------------------------------------------------------------------- N5
@@ -713,30 +900,57 @@ def _loops(fn) -> bool:
     return changed
 
 
+def _is_fresh_empty(v: ast.AST) -> bool:
+    return (isinstance(v, (ast.List, ast.Set)) and not v.elts) or (isinstance(v, ast.Dict) and not v.keys) \
+        or (isinstance(v, ast.Call) and isinstance(v.func, ast.Name) and v.func.id in ("list", "dict", "set") and not v.args and not v.keywords)
+
+
 def _sink_constants(fn) -> bool:
-    """`v = <constant>` (v a local) moves down past statements that neither read nor write v, up to the next jump: nothing can
-    observe the difference (functions with try blocks are left alone: a handler could)."""
+    """`v = <constant>` / `v = []` (v a local) moves down past statements that do not mention v, up to the next jump or loop, and into
+    both arms of an if/else whose test does not mention v: nothing can observe the difference (functions with try blocks are left alone:
+    a handler could)."""
     if any(isinstance(n, ast.Try) for n in ast.walk(fn)):
         return False
     changed = False
-    for owner, f, b in list(_blocks(fn)):
-        i = len(b) - 2
-        while i >= 0:
-            s = b[i]
-            if isinstance(s, ast.Assign) and len(s.targets) == 1 and isinstance(s.targets[0], ast.Name) and isinstance(s.value, ast.Constant):
-                v = s.targets[0].id
-                j = i
-                while j + 1 < len(b):
-                    nxt = b[j + 1]
-                    if isinstance(nxt, JUMPS) or isinstance(nxt, (ast.For, ast.While, ast.If, ast.With, ast.FunctionDef)) \
-                            or any(isinstance(n, ast.Name) and n.id == v for n in ast.walk(nxt)) \
-                            or any(isinstance(n, (ast.Lambda, ast.Call)) and isinstance(getattr(n, "func", None), ast.Name) and n.func.id in ("locals", "vars", "eval", "exec") for n in ast.walk(nxt)):
-                        break
-                    j += 1
-                if j != i:
-                    b.insert(j, b.pop(i))
-                    changed = True
-            i -= 1
+
+    def mentions(node, v):
+        return any(isinstance(n, ast.Name) and n.id == v for n in ast.walk(node)) \
+            or any(isinstance(n, ast.Call) and isinstance(n.func, ast.Name) and n.func.id in ("locals", "vars", "eval", "exec") for n in ast.walk(node))
+    for _ in range(4):
+        moved = False
+        for owner, f, b in list(_blocks(fn)):
+            i = len(b) - 2
+            while i >= 0:
+                s = b[i]
+                if isinstance(s, ast.Assign) and len(s.targets) == 1 and isinstance(s.targets[0], ast.Name) \
+                        and (isinstance(s.value, ast.Constant) or _is_fresh_empty(s.value)):
+                    v = s.targets[0].id
+                    j = i
+                    while j + 1 < len(b):
+                        nxt = b[j + 1]
+                        if isinstance(nxt, JUMPS) or isinstance(nxt, (ast.For, ast.While, ast.If, ast.With, ast.FunctionDef)) or mentions(nxt, v):
+                            break
+                        j += 1
+                    if j + 1 < len(b) and isinstance(b[j + 1], (ast.Return, ast.Raise)) and not mentions(b[j + 1], v):
+                        b.pop(i)  # dead: the function is left without reading v
+                        changed = moved = True
+                        i -= 1
+                        continue
+                    if j != i:
+                        b.insert(j, b.pop(i))
+                        changed = moved = True
+                    # into the arms of an if/else
+                    if j + 1 < len(b) and isinstance(b[j + 1], ast.If) and b[j + 1].orelse and not mentions(b[j + 1].test, v) \
+                            and (mentions(b[j + 1], v) or any(mentions(x, v) for x in b[j + 2:])) \
+                            and not (len(b[j + 1].orelse) == 1 and isinstance(b[j + 1].orelse[0], ast.If)):
+                        iff = b[j + 1]
+                        st = b.pop(j)
+                        iff.body.insert(0, st)
+                        iff.orelse.insert(0, _clone_stmt(st))
+                        changed = moved = True
+                i -= 1
+        if not moved:
+            break
     return changed
 
 
@@ -893,7 +1107,10 @@ def nf_text(fn: ast.AST, sigs: Optional[Dict[str, List[str]]] = None, inline: bo
         _fix_empty(f)
         changed |= _ifs(f)
         changed |= _loops(f)
+        changed |= _inline_before_return(f)
+        changed |= _conditional_overwrite(f)
         ast.fix_missing_locations(f)
+        changed |= bool(canon.drop_redundant_rebindings(f))
         changed |= _split_loop_targets(f)
         changed |= _sink_constants(f)
         if inline:
